@@ -233,6 +233,10 @@ fn sweep(n: usize, level: Level) -> Box<dyn Sweep> {
     Box::new(ProgSweep { label: "programs".into(), n, level, judge: Box::new(judge), verdict_on_crash: false })
 }
 
+fn skel(level: Level) -> Box<dyn Sweep> {
+    Box::new(super::progspace::SkeletonSweep { label: "programs".into(), level, judge: Box::new(judge) })
+}
+
 impl Check for C01 {
     fn id(&self) -> &'static str {
         "C01"
@@ -242,12 +246,14 @@ impl Check for C01 {
             Tier::Quick => vec![
                 sweep(1, Level::Full),
                 sweep(2, Level::Full),
+                skel(Level::Medium),
                 sweep(3, Level::Medium),
                 sweep(4, Level::Core),
             ],
             Tier::Thorough => vec![
                 sweep(1, Level::Full),
                 sweep(2, Level::Full),
+                skel(Level::Full),
                 sweep(3, Level::Full),
                 sweep(4, Level::Medium),
                 sweep(5, Level::Core),
